@@ -42,6 +42,19 @@ def opBatch (j : Json) : Except String Json := do
     ("prev", Json.bool l.prevFlag), ("pstart", jInt l.prevStart), ("pend", jInt l.prevEnd),
     ("next", Json.bool l.nextFlag), ("nstart", jInt l.nextStart), ("nend", jInt l.nextEnd)]
 
+/-- op "batchlists": the window and the `next-batches` / `previous-batches` lists read on it
+(entries: batch-start-index, batch-end-index, batch-size). -/
+def opBatchLists (j : Json) : Except String Json := do
+  let start ← getInt j "start"; let end_ ← getInt j "end"; let size ← getInt j "size"
+  let orphan ← getInt j "orphan"; let overlap ← getInt j "overlap"
+  let len ← getInt j "len"; let lz ← getBool j "lazy"
+  let s : Batch.Seq := ⟨len, lz⟩
+  let (st, e, sz) := Batch.window start end_ size orphan s
+  let nb := Batch.nextBatches sz orphan overlap s ((len - e).toNat + 1) e
+  let pb := Batch.prevBatches sz orphan overlap s (st.toNat + 1) st
+  let tr (l : List (Int × Int × Int)) : Json := Json.arr (l.map fun (a, b, c) => Json.arr #[jInt a, jInt b, jInt c]).toArray
+  return Json.mkObj [("start", jInt st), ("end", jInt e), ("size", jInt sz), ("nb", tr nb), ("pb", tr pb)]
+
 /-- op "opt": raw DT_InSV.opt. -/
 def opOpt (j : Json) : Except String Json := do
   let start ← getInt j "start"; let end_ ← getInt j "end"; let size ← getInt j "size"
@@ -629,6 +642,7 @@ def handle (j : Json) : Except String Json := do
   match op with
   | "batch" => opBatch j
   | "opt" => opOpt j
+  | "batchlists" => opBatchLists j
   | "follow" => opFollow j
   | "lazy" => opLazy j
   | "quote" => opQuote j
